@@ -62,6 +62,7 @@ type errClass struct {
 	Pos    string
 	From   string
 	Wraps  []string // names of the sentinel globals the error is or wraps (%w)
+	Direct bool     // the sentinel value itself (== matches), not an error wrapping it
 }
 
 // errorsLeaving collects the error values returned (as failures) by fn and, transitively, by the kevo callees whose error
@@ -103,7 +104,7 @@ func (c *Ctx) errorsOfValueSeen(fn *ssa.Function, v0 ssa.Value, at0 ssa.Instruct
 		}
 		if g := globalLoad(v); g != nil {
 			t := c.sentinelText(g)
-			out = append(out, errClass{Text: t, IsEOF: g.Pkg.Pkg.Path() == "io" && g.Name() == "EOF", IsUEOF: g.Name() == "ErrUnexpectedEOF", Pos: c.InsPos(at), From: FnName(fn), Wraps: []string{g.Name()}})
+			out = append(out, errClass{Text: t, IsEOF: g.Pkg.Pkg.Path() == "io" && g.Name() == "EOF", IsUEOF: g.Name() == "ErrUnexpectedEOF", Pos: c.InsPos(at), From: FnName(fn), Wraps: []string{g.Name()}, Direct: true})
 			return
 		}
 		switch x := v.(type) {
@@ -115,8 +116,8 @@ func (c *Ctx) errorsOfValueSeen(fn *ssa.Function, v0 ssa.Value, at0 ssa.Instruct
 			if call, ok := x.Tuple.(*ssa.Call); ok {
 				switch staticName(call) {
 				case "io.ReadFull", "io.ReadAtLeast":
-					out = append(out, errClass{Text: "EOF", IsEOF: true, Pos: c.InsPos(at), From: FnName(fn) + " (io.ReadFull: nothing read)"})
-					out = append(out, errClass{Text: "unexpected EOF", IsUEOF: true, Pos: c.InsPos(at), From: FnName(fn) + " (io.ReadFull: short read)"})
+					out = append(out, errClass{Text: "EOF", IsEOF: true, Direct: true, Pos: c.InsPos(at), From: FnName(fn) + " (io.ReadFull: nothing read)"})
+					out = append(out, errClass{Text: "unexpected EOF", IsUEOF: true, Direct: true, Pos: c.InsPos(at), From: FnName(fn) + " (io.ReadFull: short read)"})
 					return
 				}
 				for _, cal := range c.Callees(call) {
@@ -186,7 +187,7 @@ func ruleWalErrorClasses(c *Ctx, r *Reporter) {
 			continue
 		}
 		preds := c.errorPredicates(loopFn)
-		r.Notes = append(r.Notes, fmt.Sprintf("C10 %s classifies: ==io.EOF:%v errors.Is(ErrUnexpectedEOF):%v contains%v is%v", FnName(loopFn), preds.eof, preds.ueof, preds.substrings, preds.sentinels))
+		r.Notes = append(r.Notes, fmt.Sprintf("C10 %s classifies: io.EOF(==:%v Is:%v) ErrUnexpectedEOF(==:%v Is:%v) contains%v is%v", FnName(loopFn), preds.eofEq, preds.eof, preds.ueofEq, preds.ueof, preds.substrings, preds.sentinels))
 		var texts []string
 		for t := range uniq {
 			texts = append(texts, t)
@@ -246,7 +247,8 @@ func ruleWalErrorClasses(c *Ctx, r *Reporter) {
 
 type errPreds struct {
 	substrings, sentinels []string
-	eof, ueof             bool
+	eof, ueof             bool // errors.Is (matches wrapped errors as well)
+	eofEq, ueofEq         bool // == (matches the sentinel value itself only)
 }
 
 // errorPredicates: the tests fn applies to error values (strings.Contains on the text, errors.Is / == against sentinels).
@@ -278,9 +280,9 @@ func (c *Ctx) errorPredicates(fn *ssa.Function) errPreds {
 					if g := globalLoad(o); g != nil && g.Pkg != nil && isErrorType(o.Type()) {
 						switch {
 						case g.Pkg.Pkg.Path() == "io" && g.Name() == "EOF":
-							p.eof = true
+							p.eofEq = true
 						case g.Pkg.Pkg.Path() == "io" && g.Name() == "ErrUnexpectedEOF":
-							p.ueof = true
+							p.ueofEq = true
 						}
 					}
 				}
@@ -294,9 +296,9 @@ func (c *Ctx) errorPredicates(fn *ssa.Function) errPreds {
 
 func (p errPreds) classify(e errClass) string {
 	switch {
-	case e.IsEOF && p.eof:
+	case e.IsEOF && (p.eof || p.eofEq && e.Direct):
 		return "end-of-log"
-	case e.IsUEOF && p.ueof:
+	case e.IsUEOF && (p.ueof || p.ueofEq && e.Direct):
 		return "end-of-log"
 	}
 	for _, s := range p.substrings {
